@@ -32,6 +32,11 @@ MUTANTS = [
     ('receive-tests-without-clearing', F, 'unsigned int full_flags = atomic_fetch_and(\n			&mq->full_flags, ~(1 << receivep));',
      'unsigned int full_flags = atomic_fetch_and(\n			&mq->full_flags, ~0u);', ['C10', 'C04']),
     ('static-init-num_free-wrong', 'include/librfn/messageq.h', 'ATOMIC_VAR_INIT(((base_len) / (msg_len))), \\', 'ATOMIC_VAR_INIT(((base_len) / (msg_len)) - 1), \\', ['C10']),
+    # tie S only: no schedule of a sequentially consistent machine shows these, the skeleton obligations must break (a break without input is expected)
+    ('send-fetch-or-relaxed', F, 'atomic_fetch_or(&mq->full_flags, (1 << sendp));', 'atomic_fetch_or_explicit(&mq->full_flags, (1 << sendp), memory_order_relaxed);', ['C04:noinput']),
+    ('claim-load-acquire', F, 'unsigned char sendp = atomic_load(&mq->sendp);', 'unsigned char sendp = atomic_load_explicit(&mq->sendp, memory_order_acquire);', ['C04:noinput']),
+    ('sendp-field-not-atomic', 'include/librfn/messageq.h', '	atomic_uchar sendp;', '	unsigned char sendp;', ['C04:noinput']),
+    ('receive-reads-receivep-twice', F, '	return mq->basep + (receivep * mq->msg_len);\n\n}', '	return mq->basep + ((mq->receivep ? mq->receivep - 1 : mq->queue_len - 1) * mq->msg_len);\n\n}', ['C04:noinput']),
     ('empty-tests-bit-zero', 'include/librfn/messageq.h', 'return 0 == (atomic_load(&mq->full_flags) & (1 << mq->receivep));',
      'return 0 == (atomic_load(&mq->full_flags) & 1);', ['C10']),
 ]
@@ -75,6 +80,10 @@ def main():
                     concrete = [l for l in viol if 'no-failing-input-found' not in l]
                     verdict = 'CAUGHT' if concrete else ('caught (no input)' if viol else ('infra?' if r.returncode == 2 else 'missed'))
                     exp = 'expected' if pid in expect else 'not expected (outside this check\'s view)'
+                    if pid + ':noinput' in expect:
+                        exp = 'expected: obligation breaks (tie S), no input needed'
+                        if not viol:
+                            missed += 1
                     if pid in expect and not concrete:
                         missed += 1
                     detail = ''
